@@ -28,13 +28,17 @@ def build(cfg, ctx, order, init_pos, dups):
     lab.seed_rng(cfg['seed'] + 17)       # a different stream before the initial points: must not matter
     kind = cfg['solver']; dim = cfg['dim']
     s = lab.make_solver(kind, dim, cfg.get('npop'))
-    cost = lab.Cost('c0', cfg['cost'])
+    extra = cfg.get('extra') if cfg.get('extra_by_objective') else None
+    cost = lab.Cost('c0', cfg['cost'], extra=len(extra) if extra else 0)
     con = lab.Constraint(cfg['constraint']) if cfg.get('constraint') else None
     pen = lab.make_penalty(cfg.get('penalty'))
 
     def apply(name):
         if name == 'objective':
-            s.SetObjective(cost)
+            if extra:
+                s.SetObjective(cost, ExtraArgs=tuple(FL(extra)))    # the arguments are part of the objective's configuration
+            else:
+                s.SetObjective(cost)
         elif name == 'constraints':
             s.SetConstraints(con)
         elif name == 'penalty':
@@ -89,6 +93,9 @@ def order_cases(draw, tier):
     cfg['stepmon'] = draw(st.sampled_from([None, 'plain', 'verbose']))
     cfg['evalmon'] = draw(st.sampled_from([None, 'plain']))
     cfg['maxiter'] = draw(st.integers(2, 8))
+    if draw(st.integers(0, 2)) == 0:
+        cfg['extra'] = [draw(st.sampled_from([0.5, -1.0, 2.0]))]
+        cfg['extra_by_objective'] = True
     perm = draw(st.permutations(SETTERS))
     cfg['perm'] = list(perm)
     cfg['init_pos'] = draw(st.integers(0, len(SETTERS)))
@@ -114,6 +121,7 @@ def run_order(case, ctx):
                lambda: dict(solver=case['solver'], note='sequence of evaluated points differs', perm=case['perm']))
     ctx.label('solver:' + case['solver'])
     if case['dups']: ctx.label('with-duplicates')
+    if case.get('extra_by_objective'): ctx.label('ExtraArgs-through-SetObjective')
     ident = case['perm'] == SETTERS and case['init_pos'] == 0
     ctx.nontrivial((not ident) and len(T0) >= 3)
 
